@@ -30,7 +30,7 @@ class Prop:
             out += self.gen('quick', R)
         return out
 
-    def known(self, line, k, o):
+    def known(self, line, k, o, mk=None):
         return None
 
     def in_domain(self, line):
@@ -100,7 +100,7 @@ def judge(prop, recs):
         fails = [f for f, v in o.items() if v == 'FAILS' and (prop.o_fields is None or f in prop.o_fields or f in ('panic', 'crash', 'process'))]
         kn = None
         if fails:
-            kn = prop.known(r['line'], k, o)
+            kn = prop.known(r['line'], k, o, r.get('model_k'))
             if kn:
                 known_hits.setdefault(kn, []).append(r)
             else:
@@ -116,7 +116,7 @@ def judge(prop, recs):
                 same = not bad
                 diff = ','.join(bad)
             if not same:
-                kn2 = (kn or prop.known(r['line'], k, o)) if prop.known_covers_k else None
+                kn2 = (kn or prop.known(r['line'], k, o, r.get('model_k'))) if prop.known_covers_k else None
                 if kn2:
                     known_hits.setdefault(kn2, []).append(r)
                 else:
